@@ -4,7 +4,7 @@ Histories: for each (model, optimiser) the tree of ALL mini-batch sequences over
 length bound is driven through the real train_step (JAX values are immutable, so every node of the tree is kept,
 not replayed); plus full ml.train runs. Invariant in EVERY state of the tree: (i) every invariant filter bank
 equals c * original for one scalar c > 0; (ii) the model's static structure is unchanged; (iii) the current model
-is equivariant for every g of the bank's stabiliser, at the output and at every layer (trace monitor);
+is equivariant for every g of the bank's stabiliser (decided at the output; the trace monitor names the first diverging layer);
 (iv) the parameters did move.
 """
 import itertools as it
@@ -204,7 +204,7 @@ def run_case(case, seed):
 
 
 CLAIM = {
-    "text": "For each (model, optimiser) the complete tree of mini-batch histories up to length 3 (quick) / 4 (thorough) is driven through the real train_step, and full ml.train runs are made; in every reached state the filter banks must be a common positive multiple of the originals, the static structure unchanged and the trained model equivariant for every element of the computed symmetry group at the output and at every layer.",
+    "text": "For each (model, optimiser) the complete tree of mini-batch histories up to length 3 (quick) / 4 (thorough) is driven through the real train_step, and full ml.train runs are made; in every reached state the filter banks must be a common positive multiple of the originals, the static structure unchanged and the trained model equivariant for every element of the computed symmetry group (verdict at the output, first diverging layer named by the trace monitor).",
     "note": "L1 applies. Trusted: optax; the ratio test; vlib/ref/action.py. Longer histories and other optimisers are outside the bound.",
     "technique": "explicit exploration of all bounded training histories on the real train_step with an invariant checked in every state",
 }
